@@ -257,7 +257,6 @@ structure StateDef.plain (c : Chart) (s : StateDef) : Prop where
   onExit : ∀ x, s.onExit = some x → x.plain
   initial : ∀ i, s.initial = some i → i ≠ "" ∧ s.kind = .compound
   memory : ∀ m, s.memory = some m → m ≠ "" ∧ s.kind.isHistory = true
-  kids : s.kind.isComposite = true → c.childrenFor s.name ≠ []
   pre : ∀ x ∈ s.pre, x.plain
   post : ∀ x ∈ s.post, x.plain
   inv : ∀ x ∈ s.inv, x.plain
@@ -348,8 +347,10 @@ theorem importState_export_basic (c : Chart) (f : Nat) (n : Name) (s : StateDef)
   have e4 : True := trivial
   have t1 : truthyAt D "states" = false := by simp only [truthyAt, gStates]
   have t2 : truthyAt D "parallel states" = false := by simp only [truthyAt, gPar]
+  have p1 : presentAt D "states" = false := by simp only [presentAt, gStates]
+  have p2 : presentAt D "parallel states" = false := by simp only [presentAt, gPar]
   subst hm
-  simp only [importState, gName, e1, e2, t1, t2, importKind, gType, e3, e4, hC]
+  simp only [importState, gName, e1, e2, t1, t2, p1, p2, importKind, gType, e3, e4, hC]
   simp only [Bool.and_false, Bool.false_and, Bool.and_self, Bool.false_eq_true, if_false, if_true]
   cases s
   simp_all
@@ -361,7 +362,6 @@ theorem importState_export_compound (c : Chart) (f : Nat) (n : Name) (s : StateD
     cases hm : s.memory with
     | none => rfl
     | some m => have := (hp.memory m hm).2; rw [hk] at this; exact absurd this (by decide)
-  have hkids := hp.kids (by rw [hk]; rfl)
   simp only [exportState, hs, hk]
   simp only [show (Kind.compound == Kind.compound) = true from rfl,
     show (Kind.compound == Kind.orthogonal) = false from rfl,
@@ -398,11 +398,12 @@ theorem importState_export_compound (c : Chart) (f : Nat) (n : Name) (s : StateD
   have e2 := stripField_of_get D "on exit" s.onExit gExit hp.onExit
   have e3 := optNameAt_of_get D "initial" s.initial gInit (fun i hi => (hp.initial i hi).1)
   have e4 : True := trivial
-  have t1 : truthyAt D "states" = true := by
-    simp only [truthyAt, gStates]; exact truthy_list_map _ _ (hn ▸ hkids)
   have t2 : truthyAt D "parallel states" = false := by simp only [truthyAt, gPar]
+  have p1 : presentAt D "states" = true := by simp only [presentAt, gStates]
+  have p2 : presentAt D "parallel states" = false := by simp only [presentAt, gPar]
+  have t1 : True := trivial
   subst hm
-  simp only [importState, gName, e1, e2, t1, t2, importKind, gType, e3, e4, hC]
+  simp only [importState, gName, e1, e2, t1, t2, p1, p2, importKind, gType, e3, e4, hC]
   simp only [Bool.and_false, Bool.false_and, Bool.and_self, Bool.false_eq_true, if_false, if_true]
   cases s
   simp_all
@@ -418,7 +419,6 @@ theorem importState_export_orthogonal (c : Chart) (f : Nat) (n : Name) (s : Stat
     cases hm : s.memory with
     | none => rfl
     | some m => have := (hp.memory m hm).2; rw [hk] at this; exact absurd this (by decide)
-  have hkids := hp.kids (by rw [hk]; rfl)
   simp only [exportState, hs, hk]
   simp only [show (Kind.orthogonal == Kind.compound) = false from rfl,
     show (Kind.orthogonal == Kind.orthogonal) = true from rfl,
@@ -454,10 +454,11 @@ theorem importState_export_orthogonal (c : Chart) (f : Nat) (n : Name) (s : Stat
   have e3 : True := trivial
   have e4 : True := trivial
   have t1 : truthyAt D "states" = false := by simp only [truthyAt, gStates]
-  have t2 : truthyAt D "parallel states" = true := by
-    simp only [truthyAt, gPar]; exact truthy_list_map _ _ (hn ▸ hkids)
+  have p1 : presentAt D "states" = false := by simp only [presentAt, gStates]
+  have p2 : presentAt D "parallel states" = true := by simp only [presentAt, gPar]
+  have t2 : True := trivial
   subst hm
-  simp only [importState, gName, e1, e2, t1, t2, importKind, gType, e3, e4, hC]
+  simp only [importState, gName, e1, e2, t1, t2, p1, p2, importKind, gType, e3, e4, hC]
   simp only [Bool.and_false, Bool.false_and, Bool.and_self, Bool.false_eq_true, if_false, if_true]
   cases s
   simp_all
@@ -507,8 +508,10 @@ theorem importState_export_shallow (c : Chart) (f : Nat) (n : Name) (s : StateDe
   have e4 := optNameAt_of_get D "memory" s.memory gMem (fun i hi => (hp.memory i hi).1)
   have t1 : truthyAt D "states" = false := by simp only [truthyAt, gStates]
   have t2 : truthyAt D "parallel states" = false := by simp only [truthyAt, gPar]
+  have p1 : presentAt D "states" = false := by simp only [presentAt, gStates]
+  have p2 : presentAt D "parallel states" = false := by simp only [presentAt, gPar]
   subst hm
-  simp only [importState, gName, e1, e2, t1, t2, importKind, gType, e3, e4, hC]
+  simp only [importState, gName, e1, e2, t1, t2, p1, p2, importKind, gType, e3, e4, hC]
   simp only [Bool.and_false, Bool.false_and, Bool.and_self, Bool.false_eq_true, if_false, if_true]
   cases s
   simp_all
@@ -558,8 +561,10 @@ theorem importState_export_deep (c : Chart) (f : Nat) (n : Name) (s : StateDef)
   have e4 := optNameAt_of_get D "memory" s.memory gMem (fun i hi => (hp.memory i hi).1)
   have t1 : truthyAt D "states" = false := by simp only [truthyAt, gStates]
   have t2 : truthyAt D "parallel states" = false := by simp only [truthyAt, gPar]
+  have p1 : presentAt D "states" = false := by simp only [presentAt, gStates]
+  have p2 : presentAt D "parallel states" = false := by simp only [presentAt, gPar]
   subst hm
-  simp only [importState, gName, e1, e2, t1, t2, importKind, gType, e3, e4, hC]
+  simp only [importState, gName, e1, e2, t1, t2, p1, p2, importKind, gType, e3, e4, hC]
   simp only [Bool.and_false, Bool.false_and, Bool.and_self, Bool.false_eq_true, if_false, if_true]
   cases s
   simp_all
@@ -611,8 +616,10 @@ theorem importState_export_final (c : Chart) (f : Nat) (n : Name) (s : StateDef)
   have e4 : True := trivial
   have t1 : truthyAt D "states" = false := by simp only [truthyAt, gStates]
   have t2 : truthyAt D "parallel states" = false := by simp only [truthyAt, gPar]
+  have p1 : presentAt D "states" = false := by simp only [presentAt, gStates]
+  have p2 : presentAt D "parallel states" = false := by simp only [presentAt, gPar]
   subst hm
-  simp only [importState, gName, e1, e2, t1, t2, importKind, gType, e3, e4, hC]
+  simp only [importState, gName, e1, e2, t1, t2, p1, p2, importKind, gType, e3, e4, hC]
   simp only [Bool.and_false, Bool.false_and, Bool.and_self, Bool.false_eq_true, if_false, if_true]
   cases s
   simp_all
